@@ -316,7 +316,7 @@ class Scheduler:
         for task in self._running_tasks:
             task.cancel()
         if veriftrace.enabled:
-            veriftrace.emit('sched.close', running=len(self._running_tasks),
+            veriftrace.emit('sched.close', sched=id(self), running=len(self._running_tasks),
                             pending=self._pending_coros.qsize())
 
         # Wait until all tasks are fully done (it can take some time). This also includes
